@@ -114,6 +114,8 @@ func (c10) Plan(tier string, seed int64) []core.Scenario {
 	for i := 0; i < ncl; i++ {
 		out = append(out, core.Sc("grid-client").WithN("off", (i*4111)%(grid-c10Chunk)))
 	}
+	// every built-in method x every params shape against a client that has a live channel and an in-flight call
+	out = append(out, core.Sc("builtins-client").WithN("part", 0), core.Sc("builtins-client").WithN("part", 1), core.Sc("builtins-client").WithN("part", 2))
 	out = append(out, core.Sc("limits"))
 	for i := 0; i < nhttp; i++ {
 		out = append(out, core.Sc("http-mut").WithN("n", 400))
@@ -141,7 +143,21 @@ func (p c10) Run(sc core.Scenario) core.Result {
 	case "seq-server":
 		p.attackServer(sc, r, c10Sequences(sc.Rand(), sc.I("n")), "sequences")
 	case "grid-client":
-		p.attackClient(sc, r)
+		g := c10Grid()
+		end := sc.I("off") + c10Chunk
+		if end > len(g) {
+			end = len(g)
+		}
+		p.attackClient(sc, r, g[sc.I("off"):end], fmt.Sprintf("grid[%d:%d]", sc.I("off"), end))
+	case "builtins-client":
+		var frames []string
+		m := c10Methods[sc.I("part")]
+		for _, ps := range c10Params() {
+			for _, id := range []string{"", "1"} {
+				frames = append(frames, c10Frame(m, ps, id))
+			}
+		}
+		p.attackClient(sc, r, frames, "builtins "+m)
 	case "limits":
 		p.limits(sc, r)
 	case "http-mut":
@@ -351,14 +367,7 @@ func (c10) attackServer(sc core.Scenario, r *core.R, seqs [][]wsMsg, label strin
 }
 
 // attackClient: a fake server feeds hostile frames to a real client living in a host process.
-func (c10) attackClient(sc core.Scenario, r *core.R) {
-	g := c10Grid()
-	off := sc.I("off")
-	end := off + c10Chunk
-	if end > len(g) {
-		end = len(g)
-	}
-	frames := g[off:end]
+func (c10) attackClient(sc core.Scenario, r *core.R, frames []string, label string) {
 	rng := sc.Rand()
 	up := websocket.Upgrader{CheckOrigin: func(*http.Request) bool { return true }}
 	var mu sync.Mutex
@@ -485,7 +494,7 @@ func (c10) attackClient(sc core.Scenario, r *core.R) {
 			}
 		}
 	}
-	r.Key(fmt.Sprintf("client grid[%d:%d]", off, end), reached > 0)
+	r.Key("client "+label, reached > 0)
 	r.Obs("hostile_inputs", int64(sent))
 	r.Obs("frames_reaching_json_paths", int64(reached))
 	r.Obs("client_host_crashes", int64(crashes))
